@@ -837,9 +837,76 @@ func (c *Ctx) opsTable(pkg string) (map[string]string, error) {
 		}
 	}
 	if len(out) == 0 {
-		return nil, fmt.Errorf("no `ops` map literal in package %s", pkg)
+		// the same table written as a function: func(tok int) string { switch tok { case T: return "spelling" … } }
+		out = c.switchTable(pkg, func(sig *types.Signature) bool {
+			return sig.Params().Len() == 1 && sig.Results().Len() == 1 && isIntegerType(sig.Params().At(0).Type()) && sig.Results().At(0).Type().String() == "string"
+		}, func(info *types.Info, key ast.Expr, results []ast.Expr) (string, string, bool) {
+			if len(results) != 1 {
+				return "", "", false
+			}
+			v, ok := constStr(info, results[0])
+			return exprStr(key), v, ok
+		})
+	}
+	if len(out) == 0 {
+		return nil, fmt.Errorf("no `ops` table (map literal or switch function from token to spelling) in package %s", pkg)
 	}
 	return out, nil
+}
+
+// switchTable reads a lookup table written as a function whose body is one
+// switch over its only parameter with constant cases that return constants.
+// pick decides from the signature whether a function is a candidate; entry
+// converts one (case expression, returned expressions) pair.  The function with
+// the most entries (at least 8) wins.
+func (c *Ctx) switchTable(pkg string, pick func(*types.Signature) bool, entry func(info *types.Info, key ast.Expr, results []ast.Expr) (string, string, bool)) map[string]string {
+	best := map[string]string{}
+	for _, f := range c.funcsOfPkg(pkg, false) {
+		if f.Decl == nil || f.Obj == nil || f.Type.Params == nil {
+			continue
+		}
+		sig := f.Obj.Type().(*types.Signature)
+		if !pick(sig) {
+			continue
+		}
+		info := f.Info()
+		var param types.Object
+		for _, fld := range f.Type.Params.List {
+			for _, nm := range fld.Names {
+				param = info.Defs[nm]
+			}
+		}
+		cur := map[string]string{}
+		for _, st := range f.Body.List {
+			sw, ok := st.(*ast.SwitchStmt)
+			if !ok || sw.Tag == nil {
+				continue
+			}
+			id, ok := ast.Unparen(sw.Tag).(*ast.Ident)
+			if !ok || info.Uses[id] != param {
+				continue
+			}
+			for _, cl := range sw.Body.List {
+				cc := cl.(*ast.CaseClause)
+				if len(cc.Body) != 1 {
+					continue
+				}
+				ret, ok := cc.Body[0].(*ast.ReturnStmt)
+				if !ok {
+					continue
+				}
+				for _, k := range cc.List {
+					if a, b, ok := entry(info, k, ret.Results); ok {
+						cur[a] = b
+					}
+				}
+			}
+		}
+		if len(cur) >= 8 && len(cur) > len(best) {
+			best = cur
+		}
+	}
+	return best
 }
 
 // ---------------------------------------------------------------------------
@@ -961,6 +1028,18 @@ func (c *Ctx) wordsTable() map[string]string {
 				}
 			}
 			return true
+		})
+	}
+	if len(out) == 0 {
+		// func(word string) (tok int, ok bool) { switch word { case "if": return If, true … } }
+		out = c.switchTable("parser", func(sig *types.Signature) bool {
+			return sig.Params().Len() == 1 && sig.Params().At(0).Type().String() == "string" && sig.Results().Len() >= 1 && isIntegerType(sig.Results().At(0).Type())
+		}, func(info *types.Info, key ast.Expr, results []ast.Expr) (string, string, bool) {
+			k, ok := constStr(info, key)
+			if !ok || len(results) == 0 {
+				return "", "", false
+			}
+			return k, exprStr(results[0]), true
 		})
 	}
 	return out
